@@ -215,12 +215,40 @@ Theorem temporal_client_is_add_chain_after_head_check :
 Proof. exact temporal_add_chain_spec. Qed.
 Print Assumptions temporal_client_is_add_chain_after_head_check.
 
-(* ---------------- non-vacuity ---------------- *)
+(* 12. histories: over ANY sequence of GetSTH calls on one client with a verifier, every STH that
+       any of the calls returns verifies under the configured key over ITS OWN fields - whatever
+       the earlier calls were served and whether they were accepted or refused *)
+Theorem get_sth_verified_over_histories :
+  forall (key : Type) (sig_ok : key -> bytes -> val -> bool) (k : key) (os : list (outcome sth_rsp)) (s : sth),
+    In (COk s) (get_sth_history key sig_ok (Some k) os) -> ts_ok (t_ts s) -> ts_ok (t_size s) ->
+    sig_ok k (enc_sth_siginput (t_ts s) (t_size s) (t_root s)) (t_sig s) = true /\ length (t_root s) = 32%nat.
+Proof. exact get_sth_history_verified_l. Qed.
+Print Assumptions get_sth_verified_over_histories.
+
+(* 13. histories: over ANY sequence of AddChain / AddPreChain calls (each with its own submitted
+       chain, entry type and attempts) on one client with a verifier, every SCT that any of the
+       calls returns verifies for the chain and entry type submitted IN THAT CALL *)
+Theorem add_chain_verified_over_histories :
+  forall (key : Type) (sig_ok : key -> bytes -> val -> bool) (key_hash : key -> bytes)
+         (x509_of : list bytes -> option bytes) (precert_of : list bytes -> option (bytes * bytes))
+         (k : key) (calls : list add_call) (s : sct),
+    length (key_hash k) = 32%nat ->
+    In (COk s) (add_chain_history key sig_ok key_hash x509_of precert_of patched (Some k) calls) -> ts_ok (s_ts s) ->
+    exists (chain : list bytes) (et : N) (os : list (outcome sct_rsp)) (e : entry),
+      In (chain, et, os) calls /\
+      submitted_entry x509_of precert_of chain et e /\ entry_type e = et /\ entry_ok e /\ ext_ok (s_ext s) /\
+      s_version s = 0%N /\
+      sig_ok k (enc_sct_siginput (s_ts s) e (s_ext s)) (s_sig s) = true /\
+      s_logid s = key_hash k.
+Proof. exact add_chain_history_verified_l. Qed.
+Print Assumptions add_chain_verified_over_histories.
 
 (* a concrete exchange: key = unit, a signature table with one valid (message, signature) pair,
    key hash 32 x 0xAA, the submitted chain derives the X.509 entry 30 03 02 01 01; the log
    answers 503, then an HTML page with 200, then the good response: the SCT is returned, and
    the hypotheses of add_chain_verified hold for it *)
+(* ---------------- non-vacuity ---------------- *)
+
 Definition ex_cert : bytes := hex "3003020101".
 Definition ex_kh : bytes := rep 32 (n2b 170).
 Definition ex_ds : val := VStruct [Some (VStruct [Some (VInt 4); Some (VInt 3)]); Some (VBytes (hex "300602010102010a"))].
@@ -256,3 +284,13 @@ Example get_sth_example :
   /\ get_sth unit ok (Some tt) (Resp (mkResp 200 1 true true true (Some {| h_size := 8; h_ts := 99; h_root := rep 32 (n2b 1); h_sig := ex_sig |})))
     = CRspErr 200 1.
 Proof. vm_compute. split; reflexivity. Qed.
+
+(* a history on one client: genuine, forged with the signature bytes just accepted, genuine again, forged again *)
+Example get_sth_history_example :
+  let msg := enc_sth_siginput 99 7 (rep 32 (n2b 1)) in
+  let ok := fun (_ : unit) m ds => bytes_eqb m msg && V.TLS.TlsCase.val_eqb ds ex_ds in
+  let rsp := fun b size => Resp (mkResp 200 b true true true (Some {| h_size := size; h_ts := 99; h_root := rep 32 (n2b 1); h_sig := ex_sig |})) in
+  get_sth_history unit ok (Some tt) [rsp 1%N 7%N; rsp 2%N 8%N; rsp 1%N 7%N; rsp 3%N 9%N]
+    = [COk {| t_size := 7; t_ts := 99; t_root := rep 32 (n2b 1); t_sig := ex_ds |}; CRspErr 200 2;
+       COk {| t_size := 7; t_ts := 99; t_root := rep 32 (n2b 1); t_sig := ex_ds |}; CRspErr 200 3].
+Proof. vm_compute. reflexivity. Qed.
